@@ -166,4 +166,38 @@ example : (parsePlainFull asciiCls ['x', '@', 'y', '.', 'z', ',', ' ', 'a', '.',
 example : (parsePlainDirect asciiCls ['a', '.', 'b', ' ', 'x', '@', 'y']).toOption =
     some [⟨⟨0,3⟩,.hostname⟩, ⟨⟨3,4⟩,.space 1⟩, ⟨⟨4,7⟩,.email⟩] := by decide
 
+/-! ### non-vacuity of the theorems with hypotheses: each applied to a concrete, non-trivial value -/
+
+/-- non-vacuity of `lexHostname_bound`: `a.b- c` -/
+example : 1 ≤ 4 ∧ 4 ≤ 6 := lexHostname_bound ['a', '.', 'b', '-', ' ', 'c'] 4 (by decide)
+
+/-- `FoundOK` is `∀ k n, f = some (k, n) → …`: the three `_ok` theorems at inputs on which the lexer fires -/
+example : 1 ≤ 15 ∧ 15 ≤ 15 :=
+  lexHostnameToken_ok ['w', 'w', 'w', '.', 'e', 'x', 'a', 'm', 'p', 'l', 'e', '.', 'c', 'o', 'm'] .hostname 15 (by decide)
+example : 1 ≤ 14 ∧ 14 ≤ 16 :=
+  lexUrl_ok ['h', 't', 't', 'p', ':', '/', '/', 'a', '.', 'b', '/', '%', '4', '1', ' ', 'x'] .url 14 (by decide)
+example : 1 ≤ 8 ∧ 8 ≤ 10 :=
+  lexEmailAddress_ok ['a', '.', 'b', '@', 'c', '.', 'd', 'e', ',', ' '] .email 8 (by decide)
+
+/-- non-vacuity of `lexUrl_min` / `lexEmailAddress_min`; `://` (empty scheme) and `x@y` show that 3 is attained -/
+example : Kind.url = .url ∧ 3 ≤ 14 :=
+  lexUrl_min ['h', 't', 't', 'p', ':', '/', '/', 'a', '.', 'b', '/', '%', '4', '1', ' ', 'x'] .url 14 (by decide)
+example : lexUrl [':', '/', '/'] = some (.url, 3) := by decide
+example : Kind.email = .email ∧ 3 ≤ 8 :=
+  lexEmailAddress_min ['a', '.', 'b', '@', 'c', '.', 'd', 'e', ',', ' '] .email 8 (by decide)
+example : lexEmailAddress ['x', '@', 'y'] = some (.email, 3) := by decide
+
+/-- non-vacuity of `lexLogin_le`: `us;r@host/x`, login `us;r@host` -/
+example : 9 ≤ 11 := lexLogin_le ['u', 's', ';', 'r', '@', 'h', 'o', 's', 't', '/', 'x'] 9 (by decide)
+
+/-- non-vacuity of `pathLoop_fuel`: `/a/b` with fuel 5 and 9; the loop consumes all four characters -/
+example : pathLoop 5 ['/', 'a', '/', 'b'] = pathLoop 9 ['/', 'a', '/', 'b'] :=
+  pathLoop_fuel 5 9 ['/', 'a', '/', 'b'] (by decide) (by decide)
+example : pathLoop 5 ['/', 'a', '/', 'b'] = 4 := by decide
+
+/-- the computed table of `extOfSrc_ok` is not the empty table: `x a.b` has a hostname at position 2, and the
+theorem bounds it -/
+example : extOfSrc ['x', ' ', 'a', '.', 'b'] 2 = some (.hostname, 3) := by decide
+example : 1 ≤ 3 ∧ 2 + 3 ≤ 5 := extOfSrc_ok ['x', ' ', 'a', '.', 'b'] 2 .hostname 3 (by decide)
+
 end Harper.C02
